@@ -393,6 +393,14 @@ def exception_construct(ctx, idx, rule, only_module=None, floors=True):
     return n_sup, n_ct
 
 
+# payload attributes that hold text by construction (confirmed at every construction site of the package)
+TEXT_PAYLOADS = {
+    ("MissingParameters", "parameters"): "a set of declared input names (keys of the command's `inputs`)",
+    ("InvalidDataFile", "problem"): "a message built with str.format at both raise sites of the CSV reader",
+    ("InvalidDataFile", "solution"): "a constant, or the message passed by the raise site",
+}
+
+
 def str_methods_total(ctx, idx, rule):
     """__str__ of every MPilot error formats without raising: placeholder counts match, no star-args of unknown length"""
     import string
@@ -405,6 +413,59 @@ def str_methods_total(ctx, idx, rule):
             continue
         n += 1
         probs = []
+        # str.join and `"text" + x` need strings: a payload value reaches them only when it is text by construction (table)
+        sn_ = K.self_name(m)
+
+        # locals bound (on some path) to a payload attribute as it is
+        carried = {}
+        for _round in range(3):
+            for st_ in own_nodes(m.node):
+                if isinstance(st_, ast.Assign) and len(st_.targets) == 1 and isinstance(st_.targets[0], ast.Name):
+                    v_ = st_.value
+                    if isinstance(v_, ast.Attribute) and isinstance(v_.value, ast.Name) and v_.value.id == sn_:
+                        carried.setdefault(st_.targets[0].id, set()).add(v_.attr)
+                    elif isinstance(v_, ast.Name) and v_.id in carried:
+                        carried.setdefault(st_.targets[0].id, set()).update(carried[v_.id])
+
+        def constructed(cj):
+            for mod_, f_, n_ in K.scoped_nodes(idx):
+                if isinstance(n_, ast.Call) and isinstance(n_.func, (ast.Name, ast.Attribute)):
+                    r_ = idx.resolve(mod_, n_.func, f_)
+                    if r_ and r_[0] == "class" and r_[1] is cj:
+                        return True
+            return False
+
+        def constant_text(attr_):
+            """the attribute is a class-level constant (a str or a tuple of str) in this class family, never set per instance"""
+            family = {c_ for c_ in list(idx.mro(ci)) + list(idx.subclasses(ci)) if hasattr(c_, "node")}
+            defs_ = []
+            for cj in family:
+                for st_ in cj.node.body:
+                    if isinstance(st_, ast.Assign) and any(isinstance(t_, ast.Name) and t_.id == attr_ for t_ in st_.targets):
+                        if isinstance(st_.value, ast.Constant) and st_.value.value is None and not constructed(cj):
+                            continue  # a placeholder in a base class nobody raises; the classes that are raised override it
+                        defs_.append(st_.value)
+                for mm in cj.methods.values():
+                    for x_ in own_nodes(mm.node):
+                        if isinstance(x_, ast.Attribute) and x_.attr == attr_ and isinstance(x_.ctx, ast.Store):
+                            return False
+            def is_text(v_):
+                return (isinstance(v_, ast.Constant) and isinstance(v_.value, str)) or (isinstance(v_, (ast.Tuple, ast.List)) and all(is_text(y_) for y_ in v_.elts))
+            return bool(defs_) and all(is_text(v_) for v_ in defs_)
+
+        def payload_attrs(e_):
+            return [a_ for a_ in payload_attrs0(e_) if not constant_text(a_)]
+
+        def payload_attrs0(e_):
+            if isinstance(e_, ast.Name) and e_.id in carried:
+                return sorted(carried[e_.id])
+            e_ = K.expand(m, e_)
+            wrapped = set()
+            for w in ast.walk(e_):
+                if isinstance(w, ast.Call) and ((isinstance(w.func, ast.Name) and w.func.id in ("str", "repr", "format")) or (idx.qualname(m.module, w.func, m) or "") in ("six.text_type", "builtins.str", "builtins.repr") or (isinstance(w.func, ast.Attribute) and w.func.attr == "format")):
+                    wrapped |= {id(x) for x in ast.walk(w)}
+            return sorted({x.attr for x in ast.walk(e_) if isinstance(x, ast.Attribute) and isinstance(x.value, ast.Name) and x.value.id == sn_ and id(x) not in wrapped and x.attr not in ("lineno",)})
+
         for c in own_nodes(m.node):
             if isinstance(c, ast.Call) and isinstance(c.func, ast.Attribute) and c.func.attr == "format" and isinstance(c.func.value, ast.Constant) and isinstance(c.func.value.value, str):
                 fields = [f for _, f, _, _ in string.Formatter().parse(c.func.value.value) if f is not None]
@@ -416,8 +477,19 @@ def str_methods_total(ctx, idx, rule):
                     need = len([f for f in auto if f == ""]) or (max([int(f) for f in auto if f.isdigit()] + [-1]) + 1)
                     if need > len(c.args):
                         probs.append((c.lineno, "format string has %d positional placeholder(s) but %d argument(s)" % (need, len(c.args))))
-            if isinstance(c, ast.Call) and isinstance(c.func, ast.Attribute) and c.func.attr == "join" and c.args and isinstance(c.args[0], ast.Attribute) and c.args[0].attr in ("parameters",):
-                pass
+            if isinstance(c, ast.Call) and isinstance(c.func, ast.Attribute) and c.func.attr == "join" and isinstance(c.func.value, ast.Constant) and c.args:
+                arg = K.expand(m, c.args[0])
+                elems = arg.elts if isinstance(arg, (ast.Tuple, ast.List)) else None
+                for el in (elems if elems is not None else [arg]):
+                    if elems is not None and isinstance(el, ast.BinOp):
+                        continue  # checked as a concatenation below
+                    for a_ in payload_attrs(el):
+                        if (ci.name, a_) not in TEXT_PAYLOADS:
+                            probs.append((c.lineno, "`%s` joins the payload `%s` as it is: str.join accepts text only, so a value holding a number or a nested list raises TypeError while the message is being produced" % (K.src(c)[:50], a_)))
+            if isinstance(c, ast.BinOp) and isinstance(c.op, ast.Add) and (isinstance(c.left, ast.Constant) and isinstance(c.left.value, str) or isinstance(c.right, ast.Constant) and isinstance(c.right.value, str)):
+                for a_ in payload_attrs(c.right if isinstance(c.left, ast.Constant) else c.left):
+                    if (ci.name, a_) not in TEXT_PAYLOADS:
+                        probs.append((c.lineno, "`%s` concatenates text with the payload `%s` as it is: anything but text raises TypeError while the message is being produced" % (K.src(c)[:50], a_)))
         con = "%s::%s.__str__::total" % (ci.module.rel, ci.name)
         if probs:
             ctx.violate(rule, con, ci.module.rel, probs[0][0], "%s.__str__ can raise instead of producing the message: %s" % (ci.name, probs[0][1]))
@@ -430,7 +502,8 @@ def str_methods_total(ctx, idx, rule):
 def grammar_action_types(ctx, idx, rule, lexicon):
     """Infer the value type of every nonterminal (str / num / list / dict / node / tuple) by fixpoint over the productions
     and check that each action's operators are defined on the types its symbols can have."""
-    tok_types = {"STRING": {"str"}, "PLAIN_STRING": {"str"}, "ID": {"str"}, "TRUE": {"str"}, "FALSE": {"str"}, "INT": {"num"}, "FLOAT": {"num"}}
+    tok_types = {"STRING": {"str"}, "PLAIN_STRING": {"str"}, "ID": {"str"}, "TRUE": {"str"}, "FALSE": {"str"},
+                 "INT": {"num"} if lexicon.lexer_converts("INT") in ("int", "float") else {"str"}, "FLOAT": {"num"} if lexicon.lexer_converts("FLOAT") in ("int", "float") else {"str"}}
     types = {nt: set() for nt in lexicon.nonterminals()}
     problems = {}
 
